@@ -139,8 +139,8 @@ Qed.
 Lemma ok_hijack code body : okA (hijack src c code body). Proof. unfold hijack. ok_auto. Qed.
 Lemma ok_direct_response code : okA (direct_response code). Proof. unfold direct_response. ok_auto. Qed.
 Lemma ok_on_up_reset why : okA (on_up_reset why). Proof. unfold on_up_reset. ok_auto. Qed.
-Lemma ok_on_down_reset why : okA (on_down_reset why). Proof. unfold on_down_reset. ok_auto. Qed.
-Lemma ok_ds_reset_stream : okA (ds_reset_stream c).
+Lemma ok_on_down_reset why : okA (on_down_reset src why). Proof. unfold on_down_reset. ok_auto. Qed.
+Lemma ok_ds_reset_stream : okA (ds_reset_stream src c).
 Proof. unfold ds_reset_stream. pose proof (ok_on_down_reset RsLocalReset). ok_auto. Qed.
 Lemma ok_setup_retry_act e : okA (setup_retry_act src e).
 Proof. unfold setup_retry_act. pose proof ok_upreq_reset_stream. ok_auto. Qed.
@@ -166,7 +166,7 @@ Qed.
 Lemma ok_on_upstream_reset why : okA (on_upstream_reset src c why).
 Proof.
   intros s. unfold on_upstream_reset.
-  assert (Htail : okA (clean_up src c ;; ite resp_started (ds_reset_stream c)
+  assert (Htail : okA (clean_up src c ;; ite resp_started (ds_reset_stream src c)
                          (upd (fun s0 => s0 <| up_reset := false |>) ;; hijack src c (reason_code src why) false))).
   { pose proof ok_clean_up. pose proof ok_ds_reset_stream. pose proof (ok_hijack (reason_code src why) false). ok_auto. }
   destruct ((negb (reset_excludes_global src) || negb (reason_eqb why RsGlobalTimeout)) && negb (resp_started s) && match retry s with Some _ => true | None => false end).
@@ -463,8 +463,10 @@ Proof.
     assert (Hc1 : cleaned s1 = cleaned s) by reflexivity.
     destruct (process_done_b s1 || setup_retry s1); [cbn; split; auto; tauto|].
     destruct (received s1); cbn; split; auto; tauto.
-  - destruct ((k =? cur s)%nat && up_sender s && up_alive s); [|cbn; split; auto; tauto].
-    destruct (Hu r (s <| up_alive := false |> <| abandoned := true |>)) as [H1 H2]. rewrite H1, H2. cbn. split; auto; tauto.
+  - destruct ((k =? cur s)%nat && up_sender s && up_alive s).
+    + destruct (Hu r (s <| up_alive := false |> <| abandoned := true |>)) as [H1 H2]. rewrite H1, H2. cbn. split; auto; tauto.
+    + destruct ((k =? cur s)%nat && up_sender s && c_late_reset c && negb (c_oneway c)); [|cbn; split; auto; tauto].
+      destruct (Hu r s) as [H1 H2]. rewrite H1, H2. cbn. split; auto; tauto.
   - destruct (try_armed s) as [k'|]; [|cbn; split; auto; tauto].
     destruct (k =? k')%nat; [|cbn; split; auto; tauto].
     destruct (cleaned (s <| try_armed := None |> <| reuse := false |>)) eqn:E1; [cbn; split; auto; tauto|].
@@ -487,7 +489,8 @@ Proof.
     + destruct (global_lost_cas_stops src || resp_started (s <| global_armed := false |> <| reuse := false |>)); [cbn; split; auto; tauto|].
       destruct (Ht (s <| global_armed := false |> <| reuse := false |>)) as [H1 H2]. split; auto.
     + destruct (Ht (s <| global_armed := false |> <| reuse := false |> <| received := true |>)) as [H1 H2]. split; auto.
-  - unfold on_down_reset, ite, ret, upd. destruct (down_reset s); cbn; split; auto; tauto.
+  - unfold on_down_reset, ite, ret, upd. destruct (on_reset_checks_done src && process_done s); [cbn; split; auto; tauto|].
+    destruct (down_reset s); cbn; split; auto; tauto.
   - cbn zeta. destruct (rsp (s <| reuse := false |>)); [cbn; split; auto; tauto|].
     destruct (cleaned (s <| reuse := false |>)) eqn:E; [cbn; split; auto; tauto|].
     destruct (received (s <| reuse := false |>)); cbn; split; auto; tauto.
